@@ -56,12 +56,14 @@ def listed_strings(fn):
     return out
 
 
-def check_code(ctx, name, rng, crosscheck=True):
+def check_code(ctx, name, rng, crosscheck=True, dmax=None):
     import numqi
     code = getattr(numqi.qec, 'generate_code' + name)()
     n, K, d = code['num_qubit'], code['num_logical_dim'], code['distance']
     k = K.bit_length() - 1
     tag = '((%d,%d,%d))' % (n, K, d)
+    if dmax is not None and d > dmax:
+        d = dmax                     # quick tier of the largest code: errors below weight dmax only (stabilizers, circuits and code words in full)
 
     def bad(what, clause, data=None):
         ctx.violation('C19:%s:%s' % (name, what), '%s %s: %s' % (tag, what, clause), data)
@@ -162,7 +164,7 @@ def run(ctx):
     import numqi
     quick = ctx.tier == 'quick'
     rng = random.Random(ctx.seed)
-    names = CODES if quick else CODES + ['11_2_5']
+    names = CODES + ['11_2_5']           # the quick tier decides the ((11,2,5)) code for errors of weight <= 2 only (every stabilizer, circuit and code word in full)
     ctx.rule = ('every shipped code %s: every Pauli error of weight 1..d-1 decided by TLC from the live encoder gate list (one state per error), every '
                 'listed stabilizer, every code word; error-set generators for n<=6,d<=4 and Z-weights 1,3/2,2,3; weight enumerators for n<=%d; distinct by (code,error)'
                 % (names, 6 if quick else 8))
@@ -170,7 +172,7 @@ def run(ctx):
     ctx.tolerances = {'state-vector': 1e-9}
     infos = {}
     for nm in names:
-        infos[nm] = check_code(ctx, nm, rng, crosscheck=(nm != '11_2_5'))
+        infos[nm] = check_code(ctx, nm, rng, crosscheck=(nm != '11_2_5'), dmax=(3 if (quick and nm == '11_2_5') else None))
     # ---- recorded events validated by TLC
     ev = []
     for n in range(1, 7):
